@@ -60,7 +60,10 @@ def is_local_dir_url(url: str) -> bool:
 
 ###
 # Sequence types (allowed only for type checking in treat-as/instance-of statements)
-function('empty-sequence', nargs=0, label='sequence type')
+@method(function('empty-sequence', nargs=0, label='sequence type'))
+def evaluate__empty_sequence_type(self: XPathFunction, context: ta.ContextType = None) \
+        -> ta.ValueType:
+    raise self.error('XPST0003', "empty-sequence() is not allowed in an XPath expression")
 
 
 @method(function('item', nargs=0, label='sequence type'))
